@@ -64,7 +64,12 @@ func (o *ExpressionOptimizer) tryReorderBinaryOp(e *BinaryOpExpr) {
 
 	if !leftIsValue && leftIsOp && rightIsValue && !rightIsOp {
 		// fmt.Println("DEBUG:", e)
-		if leftOpExpr.Op == e.Op {
+		// The two constants are combined first after the rewrite: that is
+		// the same value only for two texts, or two integers whose sum or
+		// product stays far from the int64 limits (an integer and a float
+		// constant, or two large integers, give another result when they
+		// meet each other before they meet the left operand)
+		if leftOpExpr.Op == e.Op && canCombineConstants(leftOpExpr.Right, e.Right, e.Op) {
 			switch rexpr := leftOpExpr.Right.(type) {
 			case *StringExpr, *NumberExpr, *FloatExpr:
 				// (ANY op VALUE) op VALUE
@@ -80,6 +85,30 @@ func (o *ExpressionOptimizer) tryReorderBinaryOp(e *BinaryOpExpr) {
 		// fmt.Println("DEBUG:", e)
 	}
 	return
+}
+
+// constantTexts tells whether expr is built from text literals only
+func constantTexts(expr Expression) bool {
+	switch e := expr.(type) {
+	case *StringExpr:
+		return true
+	case *BinaryOpExpr:
+		return constantTexts(e.Left) && constantTexts(e.Right)
+	}
+	return false
+}
+
+func canCombineConstants(first, second Expression, op Operator) bool {
+	if constantTexts(first) && constantTexts(second) {
+		return op == Add
+	}
+	a, aok := first.(*NumberExpr)
+	b, bok := second.(*NumberExpr)
+	if !aok || !bok {
+		return false
+	}
+	const limit = int64(1) << 31
+	return a.Int > -limit && a.Int < limit && b.Int > -limit && b.Int < limit
 }
 
 func isBinaryOpExprAllValue(expr *BinaryOpExpr, op Operator) bool {
